@@ -14,6 +14,7 @@
 -/
 import Zed.Generated.C09
 import Zed.Model.VngColumns
+import Zed.Model.VecLoad
 deriving instance DecidableEq for Except
 
 namespace Zed.Vec
@@ -68,7 +69,7 @@ def fieldVec : FCol → FVec
       | .const v _ => .const id v vs.length
       | .dict es _ _ => .dict (kindOfPrim id) es vs.length
       | .plain _ _ =>
-        if kindOfPrim id = "Net" ∧ (nonNull vs) ≠ [] then .loadFails "net: nil slice indexed"
+        if kindOfPrim id = "Net" ∧ (nonNull vs) ≠ [] ∧ netAllocated = false then .loadFails "net: nil slice indexed"
         else .flat (kindOfPrim id) (vs.map optBytes)
   | .col (.enum _) _ => .loadFails "enum: no case in the loader"
   | .col (.named _ _) vs => .other "Named" vs.length
